@@ -22,7 +22,9 @@
 (*                "open" after the check's own timeout test, and the last   *)
 (*                activity is at least IdleThreshold old                    *)
 (*                                                                         *)
-(* AgreeBothWays : as long as no earlier step was flagged, the contract     *)
+(* AgreeBothWays : after every history the contract has accepted so far     *)
+(*                 (checked as a state invariant over ALL answers to ALL    *)
+(*                 next steps; only accepted histories are continued) it    *)
 (*                 flags a step iff the answer differs from the direct      *)
 (*                 statement in the failure count, the dead flag, the       *)
 (*                 requests sent, or in what the component says it waits    *)
@@ -35,7 +37,7 @@
 (***************************************************************************)
 EXTENDS KeepAlive
 
-CONSTANTS Mode, MaxT, Timeout, MaxFail
+CONSTANTS Mode, MaxT, Timeout, MaxFail, Rich
 
 Ivl == 10000
 IdleThr == 12000
@@ -43,9 +45,9 @@ Cfg == [impl |-> "design", kind |-> Mode, n |-> 1, prereg |-> 1, prestarted |-> 
         interval |-> Ivl, timeout |-> Timeout, idle |-> IdleThr, maxfail |-> MaxFail, nsubs |-> 0]
 M == Mode = "mgr"
 
-VARIABLES g, steps, T, rq, lastAct, lat, gone, flagged, last
+VARIABLES g, steps, T, rq, lastAct, lat, gone, last
 
-vars == <<g, steps, T, rq, lastAct, lat, gone, flagged, last>>
+vars == <<g, steps, T, rq, lastAct, lat, gone, last>>
 
 \* ---- the direct statement ------------------------------------------------------------------------
 RECURSIVE Trail(_, _)
@@ -56,9 +58,12 @@ Open(q)  == Len(q) > 0 /\ q[Len(q)].st = "open"
 \* ---- every answer a component can give ------------------------------------------------------------
 \* core: what every kind shows; extra: the manager's callbacks and statistics.  The clauses about the two groups are
 \* independent of each other, so the groups are varied one at a time (the other one as the direct statement says).
-Core  == [mon : IF M THEN BOOLEAN ELSE {TRUE}, fails : 0..FailCap(Cfg), pid : {-1, 0, 1, 7}, lat : {0, 5000, 15000},
+\* Rich = FALSE (quick tier) leaves out the values that only repeat a kind of deviation already present
+Core  == [mon : IF M THEN BOOLEAN ELSE {TRUE}, fails : 0..FailCap(Cfg), pid : IF Rich THEN {-1, 0, 1, 7} ELSE {-1, 0, 1},
+          lat : IF Rich \/ Timeout > Ivl THEN {0, 5000, 15000} ELSE {0, 5000},
           dead : IF M THEN {FALSE} ELSE BOOLEAN, cb : {0, 1}]
-Extra == [iss : {0, 1}, terms : {<<>>, <<1>>}, req : {0, 1}, rep : {0, 1}, to : {0, 1}, kill : {0, 1}, seen : {0, 5000, 10000, 12000}]
+Extra == [iss : {0, 1}, terms : {<<>>, <<1>>}, req : {0, 1}, rep : {0, 1}, to : {0, 1}, kill : {0, 1},
+          seen : IF Rich THEN {0, 5000, 10000, 12000} ELSE {0, 5000, 12000}]
 \* only answers in canonical form (the projection the harness applies) are distinct answers
 Canon(o) == ~o.mon => (o.fails = 0 /\ o.pid = -1 /\ o.lat = 0)
 
@@ -73,7 +78,7 @@ Edge(op, w, a, rid, dt, o, x) ==
              seen |-> IF M /\ o.mon THEN x.seen ELSE 0, sh |-> o.cb]>>]
 
 Init == /\ g = G0(Cfg) /\ steps = 0 /\ T = 0 /\ rq = <<>> /\ lastAct = -(Ivl \div 2) /\ lat = 0 /\ gone = FALSE
-        /\ flagged = FALSE /\ last = [contract |-> FALSE, direct |-> FALSE, fails |-> 0, dfails |-> 0, dead |-> FALSE]
+        /\ last = [fails |-> 0, dfails |-> 0, dead |-> FALSE, ddead |-> FALSE, reqs |-> 0]
 
 \* the latest request is named 0 in the identifier frame after the step that sent it
 Ops == {<<"adv", "", 0>>, <<"act", "", 0>>, <<"reply", "match", 0>>, <<"reply", "stale", 0>>, <<"reply", "match", 1>>}
@@ -99,39 +104,53 @@ Direct(opw, cb) ==
       f |-> Min2(f2, FailCap(Cfg)),
       lat |-> IF hit THEN T - rq[n].sent ELSE lat,
       wantEcho |-> op = "adv" /\ ~deadAfter /\ ~Open(rq2) /\ Tt - act2 >= IdleThr,
-      silent |-> op = "adv" /\ deadAfter /\ ~M,            \* ska: requests to a dead session are not constrained
+      \* ska: whether a dead session that is idle and has nothing open is sent further requests is not constrained
+      silent |-> op = "adv" /\ deadAfter /\ ~M /\ ~Open(rq2) /\ Tt - act2 >= IdleThr,
       core |-> IF mon2 THEN [mon |-> TRUE, fails |-> Min2(f2, FailCap(Cfg)), pid |-> IF Open(rq3) THEN (IF cb = 1 THEN 1 ELSE 0) ELSE -1,
                              lat |-> IF hit THEN T - rq[n].sent ELSE lat, dead |-> ~M /\ deadAfter, cb |-> cb]
                ELSE [mon |-> FALSE, fails |-> 0, pid |-> -1, lat |-> 0, dead |-> FALSE, cb |-> cb],
       extra |-> [iss |-> cb, terms |-> IF diesNow THEN <<1>> ELSE <<>>, req |-> cb, rep |-> IF hit THEN 1 ELSE 0,
                  to |-> IF tout THEN 1 ELSE 0, kill |-> IF diesNow THEN 1 ELSE 0, seen |-> IF mon2 THEN Min2((T + dt) - act2, IdleThr) ELSE 0]]
 
-Take(opw, o, x) ==
+\* one answer judged twice: by the contract (cl) and by the direct statement (diff)
+Judge(opw, o, x) ==
   LET op  == opw[1]
       d   == Direct(opw, o.cb)
       rid == IF op # "reply" THEN -1 ELSE IF opw[2] = "match" THEN 0 ELSE 100
       e   == Edge(op, opw[2], opw[3], rid, d.dt, o, x)
-      cl  == EdgeClauses(Cfg, g, e) \cup NodeClauses(Cfg, Step(Cfg, g, e, <<>>), [ss |-> e.ss], op)
+      g2  == Step(Cfg, g, e, <<>>)
+      cl  == EdgeClauses(Cfg, g, e) \cup NodeClauses(Cfg, g2, [ss |-> e.ss], op)
       echoOK == d.silent \/ o.cb = (IF d.wantEcho THEN 1 ELSE 0)
       xn  == IF o.mon THEN x ELSE [x EXCEPT !.seen = 0]           \* lastSeen of a session that is not monitored is not observable
-      diff == o # d.core \/ ~echoOK \/ (M /\ xn # d.extra)
-  IN /\ last' = [contract |-> cl # {}, direct |-> diff, fails |-> o.fails, dfails |-> d.core.fails, dead |-> o.dead # d.core.dead]
-     /\ flagged' = (cl # {})
-     /\ g' = Step(Cfg, g, e, <<>>)
-     /\ rq' = d.rq /\ T' = T + d.dt /\ lastAct' = d.act /\ lat' = d.lat /\ gone' = ~d.mon
-     /\ steps' = steps + 1
+  IN [contract |-> cl # {}, direct |-> o # d.core \/ ~echoOK \/ (M /\ xn # d.extra), g2 |-> g2, d |-> d]
 
+Possible(opw) == opw[1] = "reply" => Len(rq) > 0                  \* the peer answers only what it has seen
+Live == steps < MaxT /\ ~gone
+
+\* every answer to every step that can follow the history so far: the two verdicts coincide
+AgreeBothWays ==
+  Live => \A opw \in Ops : Possible(opw) =>
+            /\ \A o \in Core : Canon(o) => LET j == Judge(opw, o, Direct(opw, o.cb).extra) IN j.contract = j.direct
+            /\ M => \A cb \in {0, 1}, x \in Extra : LET j == Judge(opw, Direct(opw, cb).core, x) IN j.contract = j.direct
+
+\* the histories the contract accepts are continued (by AgreeBothWays an accepted answer is the direct statement's,
+\* with or without a request where the statement is silent)
 Next ==
-  /\ steps < MaxT /\ ~flagged /\ ~gone
-  /\ \E opw \in Ops :
-       /\ (opw[1] = "reply" => Len(rq) > 0)                        \* the peer answers only what it has seen
-       /\ \/ \E o \in Core : Canon(o) /\ Take(opw, o, Direct(opw, o.cb).extra)
-          \/ M /\ \E cb \in {0, 1}, x \in Extra : Take(opw, Direct(opw, cb).core, x)
+  /\ Live
+  /\ \E opw \in Ops, cb \in {0, 1} :
+       LET d == Direct(opw, cb)
+           j == Judge(opw, d.core, d.extra)
+       IN /\ Possible(opw)
+          /\ ~j.contract
+          /\ last' = [fails |-> d.core.fails, dfails |-> d.f, dead |-> d.core.dead, ddead |-> ~M /\ d.deadAfter, reqs |-> Len(d.rq)]
+          /\ g' = j.g2
+          /\ rq' = d.rq /\ T' = T + d.dt /\ lastAct' = d.act /\ lat' = d.lat /\ gone' = ~d.mon
+          /\ steps' = steps + 1
 
 Spec == Init /\ [][Next]_vars
 
-AgreeBothWays == last.contract = last.direct
-AcceptedTrue  == ~flagged => (last.fails = last.dfails /\ ~last.dead)
+\* hence on every accepted history: the count the component shows is Fails(rq), dead iff Fails(rq) >= MaxFailures
+AcceptedTrue == gone \/ (last.fails = last.dfails /\ last.dead = last.ddead /\ g.x[1].fail = Min2(Fails(rq), FailCap(Cfg)))
 
 \* absolute instants are only compared with each other; MaxT keeps the model finite
 View == vars
